@@ -10,6 +10,7 @@
 //! mute <kind> <ns hex> <tp hex> -> sent|fail   (zero-window peer asking for a wrong-pattern role, never reading)
 //! oversize -> ok|fail:<text>  (bound replier survives a request that is too large only once tagged)
 //! alive -> ok|fail:<text>
+//! bigopen <kind> <payload bytes> -> <reply>   (invalid name, frame just under the limit: must be err:4)
 //! race -> ok|fail:<text>      (first registrations of both patterns released together on fresh topics, 25 rounds)
 //! iso -> ok|fail:<text>      (five confusable names used concurrently)
 //! end
@@ -238,23 +239,29 @@ pub async fn probe_race(addr: std::net::SocketAddr, certs: &Certs, tag: &str, ro
                 barrier.wait().await;
                 let mut st = match st {
                     Ok(s) => s,
-                    Err(_) => return (kind, "open_failed".to_string(), false),
+                    Err(_) => return (kind, "open_failed".to_string(), false, None),
                 };
                 if st.send(frame_of(kind, &ns, &tp, 0, &mut r)).await.is_err() {
-                    return (kind, "send_failed".to_string(), false);
+                    return (kind, "send_failed".to_string(), false, None);
                 }
                 let reply = first_reply(&mut st, 4000).await;
                 let mut abandoned = false;
                 if reply == "ok" {
                     abandoned = !matches!(tokio::time::timeout(Duration::from_millis(120), st.next()).await, Err(_));
                 }
-                (kind, reply, abandoned)
+                (kind, reply, abandoned, Some(st))
             }));
         }
         let mut acked_ps = 0;
         let mut acked_rr = 0;
+        let mut subscribers = vec![];
         for h in tasks {
-            let (kind, reply, abandoned) = h.await.map_err(|e| format!("join:{:?}", e))?;
+            let (kind, reply, abandoned, st) = h.await.map_err(|e| format!("join:{:?}", e))?;
+            if reply == "ok" && kind == "regsub" && !abandoned {
+                if let Some(st) = st {
+                    subscribers.push(st);
+                }
+            }
             if reply == "ok" {
                 if abandoned {
                     return Err(format!("round_{}:a_{}_registration_was_acknowledged_and_then_abandoned", t, kind));
@@ -269,6 +276,32 @@ pub async fn probe_race(addr: std::net::SocketAddr, certs: &Certs, tag: &str, ro
         }
         if acked_ps + acked_rr == 0 {
             return Err(format!("round_{}:nobody_was_acknowledged_on_a_fresh_topic", t));
+        }
+        // every subscriber that was acknowledged in the race is registered on THE topic: a publisher that
+        // comes afterwards reaches each of them (C01: all arrival orders of registrations)
+        if acked_ps > 0 && !subscribers.is_empty() {
+            let mut r = Rng::new(t);
+            let (ns, tp) = (format!("race{}", tag), format!("t{:03}", t));
+            let mut publ = peers[0].open().await.map_err(|e| format!("pub_open:{:?}", e))?;
+            let _ = publ.send(frame_of("regpub", &ns, &tp, 0, &mut r)).await;
+            if first_reply(&mut publ, 4000).await == "ok" {
+                tokio::time::sleep(Duration::from_millis(60)).await;
+                for _ in 0..3 {
+                    let _ = publ.send(frame_of("msg", &ns, &tp, 24, &mut r)).await;
+                }
+                for (k, st) in subscribers.iter_mut().enumerate() {
+                    let mut got = 0;
+                    for _ in 0..3 {
+                        match tokio::time::timeout(Duration::from_millis(3000), st.next()).await {
+                            Ok(Some(Ok(Frame::Message(_)))) => got += 1,
+                            _ => break,
+                        }
+                    }
+                    if got < 3 {
+                        return Err(format!("round_{}:subscriber_{}_acknowledged_in_the_race_received_{}_of_3_messages_published_afterwards", t, k, got));
+                    }
+                }
+            }
         }
     }
     Ok(())
@@ -463,6 +496,26 @@ pub async fn run_case(addr: std::net::SocketAddr, certs: &Certs, seed: u64, i: u
         Ok(()) => "ok".to_string(),
         Err(e) => format!("fail:{}", clean(e)),
     });
+    // an invalid name so long that the registration frame lies just under the frame limit: it is still
+    // refused with an error frame (whatever the refusal quotes must fit)
+    {
+        let kind = *r.pick(&["regsub", "regpub", "regreq", "regrep"]);
+        let overhead = if kind == "regsub" || kind == "regpub" { 32 } else { 16 };
+        let d = *r.pick(&[0usize, 1, 40, 100, 117, 133, 200, 4096]);
+        let ns = "bad ns";
+        let tp = "c".repeat(crate::wire::MAX - d - overhead - ns.len());
+        let reply = match RawPeer::connect_trusted(addr, certs).await {
+            Ok(p) => match p.open().await {
+                Ok(mut st) => {
+                    let sent = tokio::time::timeout(Duration::from_millis(8000), st.send(frame_of(kind, ns, &tp, 0, &mut r))).await;
+                    if matches!(sent, Ok(Ok(()))) { first_reply(&mut st, 8000).await } else { "send_failed".to_string() }
+                }
+                Err(_) => "open_failed".to_string(),
+            },
+            Err(_) => "connect_failed".to_string(),
+        };
+        let _ = writeln!(out, "bigopen {} {} -> {}", kind, crate::wire::MAX - d, reply);
+    }
     let res = match tokio::time::timeout(Duration::from_millis(60000), probe_race(addr, certs, &format!("{}x{}", seed % 100_000, i), 25)).await {
         Ok(r) => r,
         Err(_) => Err("no_answer_within_60s".to_string()),
